@@ -101,6 +101,29 @@ Round 5 (a fourth campaign: free-form maintenance commits; two classes were repo
   (fixes/C14_epw_sky_temperature_deepcopy.patch; known finding C14-epw-sky-temperature-nested-metadata until
   it is committed; `sky_temperature_deep()` follows the source).
 
+Round 6 (a fifth campaign: one miss, C14-20):
+
+* class "a NEWLY ADDED public operation of an anchored class that derives an object, written with a stock idiom whose
+  degenerate case hands back the operand" (seen as: a reflected addition for `sum()` with `if other == 0: return
+  self`).  The check no longer works from its own list of operations only: `_api_cases` reads the public names and
+  the special methods of the ten collection classes FROM THE TREE UNDER TEST (`_api_names`), calls each with a
+  fixed family of probes (no argument, 0 / 0.0 / -0.0 / False / 1 / 1.0 / True / 2.5 / -3, the sibling, itself,
+  [c], [c, sibling], [], own unit, own period, None, a slice; for an unknown name with k >= 2 required parameters
+  every probe k times and every pairing of 0 / 1 / None), every binary operator of the language with those
+  operands on EITHER side and the unary operators whether or not the class defines them today, and the built-in
+  protocols that reduce to them (`sum` over one / two / three collections as list, tuple, iterator, generator,
+  with a float start; `math.prod`; `copy.copy`; `copy.deepcopy`; `round`; `reversed`).  Whatever hands back a
+  collection becomes a `derive` case (op `api`, replayable by name): the result is a new object, the operands
+  and the caller's list read as before, then every mutator on either side, then the call asked again.  Names
+  the check was not written for (`API_KNOWN` is the list of the tree it was written for; counted as
+  `api:name-not-known:*`), operator / protocol forms that do not end in a known special method and calls whose
+  result shares an object with an operand get the case with every mutator, the known names a sample (they have
+  their own strata).  The same for `Wea` (`_api_comp_cases` -> `check_composite`; writers are not called) and
+  `Header` (`_api_header_cases` -> `check_api_header`).  In-place protocols (`__i*__`, `convert_to_*`, unknown
+  methods that edit a mutable source) are not deriving operations and are left alone.
+  Lean: `radd`, `sumColl` (definitions through the modelled `+`), `C14_identity_operand_new_object`,
+  `C14_identity_operand_then_edit`, `C14_radd_zero_new_object`, `C14_sum_new_object`, `C14_sum_single_new_object`.
+
 History layer: every deriving step of a history may be asked AGAIN later (`again` marker): as long as the
 objects it read were not edited by a successful step, the new answer must equal the answer given the first
 time (whatever was done to the first answer meanwhile); a refused step must leave every object as it was.
@@ -149,6 +172,10 @@ RULE = ('correspondence: random histories (1-3 source collections of the 5 class
         'the same data type, data type, mutability, metadata, class, period, length; either operand left), '
         'composites (Wea source form x past x deriving call x edit of the own settings or a member x side; '
         'EPW x sky_temperature), histories around Wea objects, aligned siblings in another unit; '
+        'round 6: the public names, operators and built-in protocols (sum, math.prod, copy, deepcopy) of the '
+        'collection classes, Wea and Header as found on the tree under test x a fixed family of probe operands '
+        '(identity elements on either side first): what hands back an object goes through the derive / '
+        'composite oracle by name; '
         'non-trivial = the step returned an object or edited one; distinct = distinct history '
         'or (operation, class, mutability, mutator, side)')
 TRUSTED_BASE = [
@@ -711,6 +738,9 @@ def apply_derive(live, on, op, a):
             except Exception:
                 pass
         return []
+    if op == 'api':
+        # round 6: a public attribute / operator / built-in protocol found on the class of the tree under test
+        return _api_collect(_api_call(c, live[1] if len(live) > 1 else None, a))
     if op == 'wea_init':
         # round 5: two collections handed to the Wea constructor (the Wea keeps them: nothing to edit
         # afterwards; the call itself must leave them as they are, accepted or refused)
@@ -1940,7 +1970,10 @@ def _try_mut(c, op, a):
 def _derive_sig(inp, objs):
     d = inp['derive']
     c = objs[d['on']]
-    return {'derive': d['op'], 'cls': CLS[c._collection_type], 'mutable': bool(c.is_mutable)}
+    sig = {'derive': d['op'], 'cls': CLS[c._collection_type], 'mutable': bool(c.is_mutable)}
+    if d['op'] == 'api':
+        sig.update(api=d['args'].get('name'), form=d['args'].get('form'), probe=d['args'].get('probe'))
+    return sig
 
 
 def check_derive(inp):
@@ -1997,7 +2030,8 @@ def check_derive(inp):
     for r in res:
         for k, o in enumerate(objs):
             if r is o:
-                return {'required': '%s returns a new object' % d['op'], 'observed': 'the result is source %d' % k,
+                return {'required': '%s returns a new object' % (_api_text(d['args']) if d['op'] == 'api' else d['op']),
+                        'observed': 'the result is source %d' % k,
                         'sig': dict(sig, side='result-is-source')}
     # results of a derivation from an immutable collection that are immutable themselves must hold tuples
     for r in res:
@@ -2922,6 +2956,11 @@ def _comp_derive(w, name):
         return list(w.estimate_illuminance_components(dew))
     if name == 'dict':
         return [Wea.from_dict(w.to_dict())]
+    if name.startswith('api:'):
+        # round 6: an operator / built-in protocol / public name found on the class of the tree under test
+        _, form, nm, probe = name.split(':')
+        res = _api_call(w, _wea(), {'form': form, 'name': nm, 'probe': probe})
+        return _api_collect(res, kinds=('coll', 'wea', 'epw'))
     raise ValueError(name)
 
 
@@ -3102,6 +3141,8 @@ def _composite_cases(ctx):
 def check_case(op, inp):
     if op == 'composite':
         return check_composite(inp)
+    if op == 'api_header':
+        return check_api_header(inp)
     if op == 'shape':
         return check_shape(inp)
     if op == 'returned':
@@ -3660,6 +3701,556 @@ def _sweep_cases(ctx):
                     yield 'derive', case
 
 
+# ---------------------------------------------------------------------------------------------
+# round 6: the derive-capable public API is DISCOVERED on the tree under test
+
+
+API_KNOWN = frozenset([
+    'ToString', '__add__', '__contains__', '__copy__', '__dict__', '__div__', '__doc__', '__eq__', '__getitem__',
+    '__hash__', '__init__', '__iter__', '__len__', '__module__', '__mul__', '__ne__', '__neg__', '__repr__',
+    '__setitem__', '__slots__', '__sub__', '__truediv__', '__weakref__', 'aggregate_by_area', 'arange',
+    'are_collections_aligned', 'are_metadatas_aligned', 'average', 'average_daily', 'average_monthly',
+    'average_monthly_per_hour', 'bounds', 'compute_function_aligned', 'convert_to_culled_timestep', 'convert_to_ip',
+    'convert_to_si', 'convert_to_unit', 'cull_to_timestep', 'datetime_strings', 'datetimes', 'duplicate',
+    'filter_by_analysis_period', 'filter_by_conditional_statement', 'filter_by_doys', 'filter_by_hoys',
+    'filter_by_months', 'filter_by_months_per_hour', 'filter_by_moys', 'filter_by_pattern', 'filter_by_range',
+    'filter_collections_by_statement', 'from_dict', 'get_aligned_collection', 'group_by_day', 'group_by_month',
+    'group_by_month_per_hour', 'header', 'highest_values', 'histogram', 'histogram_circular', 'interpolate_holes',
+    'interpolate_to_timestep', 'is_collection_aligned', 'is_continuous', 'is_in_data_type_range',
+    'is_metadata_aligned', 'is_mutable', 'linspace', 'lowest_values', 'max', 'median', 'min', 'moys_dict',
+    'normalize_by_area', 'pattern_from_collections_and_statement', 'percentile', 'percentile_daily',
+    'percentile_monthly', 'percentile_monthly_per_hour', 'timestep_text', 'to_dict', 'to_discontinuous',
+    'to_immutable', 'to_ip', 'to_mutable', 'to_si', 'to_time_aggregated', 'to_time_rate_of_change', 'to_unit',
+    'total', 'total_daily', 'total_monthly', 'total_monthly_per_hour', 'validate_analysis_period',
+    'validated_a_period', 'values'])
+API_NOT_CALLED = frozenset(['__init__', '__new__', '__dict__', '__doc__', '__module__', '__slots__', '__weakref__',
+                            '__hash__', '__setitem__', '__delitem__', '__setattr__', '__delattr__', '__del__',
+                            '__class__', '__init_subclass__', '__subclasshook__', '__getattribute__', '__getattr__',
+                            '__reduce__', '__reduce_ex__', '__getstate__', '__setstate__', '__sizeof__',
+                            '__enter__', '__exit__'])
+API_WRITER_WORDS = ('write', 'save', 'file', 'dump', 'export', 'csv', 'json', 'folder', 'path', 'print')
+API_BIN = ('add', 'sub', 'mul', 'truediv', 'floordiv', 'mod', 'pow', 'matmul', 'and', 'or', 'xor', 'lshift',
+           'rshift')
+API_UNARY = ('neg', 'pos', 'abs', 'invert')
+API_NUM_PROBES = ('zero', 'zerof', 'negzero', 'false', 'one', 'onef', 'true', 'num', 'neg')
+API_PROBES = ('none',) + API_NUM_PROBES + ('sib', 'self', 'list1', 'list2', 'empty', 'unit', 'ap', 'none1', 'slice',
+                                          'zero2', 'sibzero', 'text')
+API_BUILTINS = ('sum1', 'sum1iter', 'sum1gen', 'sum1tuple', 'sum1start0f', 'sum2', 'sum3', 'prod1', 'prod2',
+                'deepcopy', 'copy', 'round', 'reversed')
+
+
+def _api_probe(name, c, sib):
+    if name == 'none':
+        return ()
+    simple = {'zero': 0, 'zerof': 0.0, 'negzero': -0.0, 'false': False, 'one': 1, 'onef': 1.0, 'true': True,
+              'num': 2.5, 'neg': -3, 'none1': None, 'text': 'a > 0'}
+    if name in simple:
+        return (simple[name],)
+    if name == 'sib':
+        return (sib,)
+    if name == 'self':
+        return (c,)
+    if name == 'list1':
+        return ([c],)
+    if name == 'list2':
+        return ([c, sib],)
+    if name == 'empty':
+        return ([],)
+    if name == 'emptydict':
+        return ({},)
+    if name == 'unit':
+        return (c.header.unit,)
+    if name == 'ap':
+        return (_mk_ap(_ap_tokens(c.header.analysis_period)),)
+    if name == 'slice':
+        return (slice(None),)
+    if name == 'zero2':
+        return (0, 0)
+    if name == 'sibzero':
+        return (sib, 0)
+    if name.startswith('mix:'):
+        out = ()
+        for b in name[4:].split('.'):
+            out += _api_probe(b, c, sib)
+        return out
+    if name.startswith('rep:'):                 # the same probe for each of k required parameters
+        _, base, k = name.split(':')
+        return _api_probe(base, c, sib) * int(k)
+    raise ValueError('unknown probe ' + name)
+
+
+@contextlib.contextmanager
+def _no_files():
+    """A name the check does not know is called with probe operands: while it runs, nothing can be opened (a
+    writer given a probe as its path must not leave files behind or close a standard stream)."""
+    import builtins
+    real = builtins.open
+
+    def refuse(*args, **kw):
+        raise IOError('no files during an API probe')
+    builtins.open = refuse
+    try:
+        yield
+    finally:
+        builtins.open = real
+
+
+def _api_call(c, sib, a):
+    """One public attribute / operator / built-in protocol of collection `c`, by NAME (nothing here knows
+    what the name does)."""
+    import math
+    import operator
+    form, name = a['form'], a['name']
+    if form == 'builtin':
+        if name == 'sum1':
+            return sum([c])
+        if name == 'sum1iter':
+            return sum(iter([c]))
+        if name == 'sum1gen':
+            return sum(x for x in [c])
+        if name == 'sum1tuple':
+            return sum((c,))
+        if name == 'sum1start0f':
+            return sum([c], 0.0)
+        if name == 'sum2':
+            return sum([c, sib])
+        if name == 'sum3':
+            return sum([c, sib, c])
+        if name == 'prod1':
+            return math.prod([c])
+        if name == 'prod2':
+            return math.prod([c, sib])
+        if name == 'deepcopy':
+            return copy.deepcopy(c)
+        if name == 'copy':
+            return copy.copy(c)
+        if name == 'round':
+            return round(c)
+        if name == 'reversed':
+            return reversed(c)
+        raise ValueError('unknown builtin form ' + name)
+    p = _api_probe(a['probe'], c, sib)
+    if a['probe'] in ('list1', 'list2'):
+        a['_list'] = p[0]
+    if form == 'op':
+        return getattr(operator, {'and': 'and_', 'or': 'or_'}.get(name, name))(c, p[0])
+    if form == 'rop':
+        return getattr(operator, {'and': 'and_', 'or': 'or_'}.get(name, name))(p[0], c)
+    if form == 'unary':
+        return getattr(operator, name)(c)
+    if form == 'call':
+        f = getattr(c, name)
+        if not callable(f):
+            return f
+        with _no_files():
+            return f(*p)
+    raise ValueError('unknown api form ' + form)
+
+
+def _api_collect(res, depth=0, kinds=('coll',)):
+    """The collections inside whatever came back (lists / tuples / dict values, two levels)."""
+    if not isinstance(res, (list, tuple, dict)) and _kind(res) in kinds:
+        return [res]
+    out = []
+    if depth < 2 and isinstance(res, (list, tuple, dict)) and len(res) <= 64:
+        for x in (res.values() if isinstance(res, dict) else res):
+            out.extend(_api_collect(x, depth + 1, kinds))
+    return out
+
+
+def _api_names(cls):
+    """Public names and the special methods a ladybug class defines (read from the class of the tree under test)."""
+    names = []
+    for n in dir(cls):
+        if n.startswith('__') and n.endswith('__'):
+            if not any(n in b.__dict__ and str(b.__module__).startswith('ladybug') for b in cls.__mro__):
+                continue
+            if not callable(getattr(cls, n, None)):
+                continue                    # __doc__, __slots__, the copyreg cache ...
+        elif n.startswith('_'):
+            continue
+        names.append(n)
+    return names
+
+
+def _api_arity_probes(cls, n, known=API_KNOWN):
+    """A name the check does not know that asks for k >= 2 arguments: each number probe k times."""
+    import inspect
+    if n in known:
+        return ()
+    try:
+        ps = list(inspect.signature(getattr(cls, n)).parameters.values())
+        k = len([q for q in ps if q.default is q.empty and q.kind in (q.POSITIONAL_ONLY, q.POSITIONAL_OR_KEYWORD)])
+        if ps and ps[0].name in ('self', 'cls'):
+            k -= 1
+    except Exception:
+        return ()
+    if k < 2 or k > 4:
+        return ()
+    import itertools
+    mixed = tuple('mix:' + '.'.join(t) for t in itertools.product(('zero', 'one', 'none1') if k <= 3 else
+                                                                  ('zero', 'one'), repeat=k)
+                  if len(set(t)) > 1)           # every pairing of the identity elements 0 / 1 / None
+    return tuple('rep:%s:%d' % (b, k) for b in ('zero', 'one', 'onef', 'num', 'sib', 'true', 'none1')) + mixed
+
+
+API_PROBES_SHORT = ('none', 'zero', 'one', 'num', 'sib', 'list2', 'unit', 'ap', 'none1')
+
+
+def _api_forms(cls, small=False):
+    """(name, form, probes) for everything that could hand back a collection: every discovered name called with
+    every probe; every binary operator of the language with a number / a sibling on either side (whether the
+    class defines it or not: a reflected or fall-back protocol defined tomorrow is asked today); the unary
+    operators; the built-in protocols that reduce to them (sum, math.prod, copy, deepcopy)."""
+    out = []
+    for n in _api_names(cls):
+        if n in API_NOT_CALLED or n.startswith('convert_to_') or (
+                n.startswith('__i') and n[3:-2] in API_BIN + ('div',)):
+            continue                        # constructors, in-place protocols, the in-place converters
+        if n not in API_KNOWN and any(t in n for t in API_WRITER_WORDS):
+            continue                        # an unknown name that looks like a file writer is not called
+        out.append((n, 'call', (API_PROBES_SHORT if small and n in API_KNOWN else API_PROBES)
+                    + _api_arity_probes(cls, n)))
+    for b in API_BIN:
+        out.append((b, 'op', API_NUM_PROBES + ('sib', 'self', 'none1')))
+        out.append((b, 'rop', API_NUM_PROBES + ('sib', 'none1', 'empty')))
+    for u in API_UNARY:
+        out.append((u, 'unary', ('none',)))
+    for b in API_BUILTINS:
+        out.append((b, 'builtin', ('none',)))
+    return out
+
+
+def _api_text(a):
+    p = {'zero': '0', 'zerof': '0.0', 'negzero': '-0.0', 'false': 'False', 'one': '1', 'onef': '1.0', 'true': 'True',
+         'num': '2.5', 'neg': '-3', 'sib': 'sibling', 'self': 'c', 'list1': '[c]', 'list2': '[c, sibling]',
+         'none': '', 'none1': 'None', 'empty': '[]'}.get(a.get('probe'), a.get('probe'))
+    form, name = a.get('form'), a.get('name')
+    if form == 'op':
+        return 'operator.%s(c, %s)' % (name, p)
+    if form == 'rop':
+        return 'operator.%s(%s, c)' % (name, p)
+    if form == 'unary':
+        return 'operator.%s(c)' % name
+    if form == 'builtin':
+        return {'sum1': 'sum([c])', 'sum1iter': 'sum(iter([c]))', 'sum1gen': 'sum(x for x in [c])',
+                'sum1tuple': 'sum((c,))', 'sum1start0f': 'sum([c], 0.0)', 'sum2': 'sum([c, sibling])',
+                'sum3': 'sum([c, sibling, c])', 'prod1': 'math.prod([c])', 'prod2': 'math.prod([c, sibling])',
+                }.get(name, '%s(c)' % name)
+    return 'c.%s(%s)' % (name, p)
+
+
+def _api_form_known(name, form, probe):
+    """Does the operator / protocol form end in a special method the check has strata of its own for?"""
+    if form == 'call':
+        return name in API_KNOWN
+    if form == 'op' or (form == 'rop' and probe in ('sib', 'self')):
+        return '__%s__' % name in API_KNOWN
+    if form == 'unary':
+        return '__%s__' % name in API_KNOWN
+    return form == 'builtin' and name == 'copy'
+
+
+def _api_shares(r, objs):
+    for o in objs:
+        if r is o:
+            return 'is-source'
+        try:
+            if r.header is o.header or r.header.metadata is o.header.metadata:
+                return 'header'
+            if isinstance(r._values, list) and r._values is o._values:
+                return 'values'
+        except Exception:
+            pass
+    return None
+
+
+_API_SPEC = {'hc': ([1, 1, 0, 1, 1, 23, 1, 0], [h * 60 for h in range(24)]),
+             'hd': ([1, 1, 0, 1, 1, 23, 1, 0], [h * 60 for h in (0, 1, 2, 5, 6, 7, 12, 23)]),
+             'daily': ([1, 1, 0, 1, 6, 23, 1, 0], [1, 2, 3, 4, 5, 6]),
+             'monthly': ([1, 1, 0, 6, 30, 23, 1, 0], [1, 2, 3, 4, 5, 6]),
+             'mph': ([1, 1, 0, 2, 28, 23, 1, 0], [10000 + h * 100 for h in range(24)] +
+                     [20000 + h * 100 for h in range(24)])}
+
+
+def _api_cases(ctx):
+    """Scan: each discovered (name, form, probe) is called once on a small source of each of the ten classes.
+    Whatever hands back a collection becomes a `derive` case (op `api`: fresh result, nothing shared, source and
+    sibling as before, asked again = first answer).  Names the check does not know from the tree it was written
+    for, operator / built-in protocols, and calls whose result looks shared get the case with every mutator;
+    the names it knows (they have their own strata) a sample."""
+    rng = ctx.rng
+    small = ctx.quick and not ctx.searching
+    classes = _classes()
+    inplace = set()
+    for cls in ('hc', 'hd', 'daily', 'monthly', 'mph'):
+        for mutable in (True, False):
+            ap, dts = _API_SPEC[cls]
+            spec = {'cls': cls, 'mutable': mutable, 'unit': 'C', 'ap': list(ap), 'dts': list(dts),
+                    'meta': {'k1': 1, 'k2': [1, 2]}, 'vals': [float((7 * i) % 11) - 2 for i in range(len(dts))]}
+            if rng.random() < 0.3:
+                spec['vals'] = [0.0] * len(dts)
+            sib = _twin(spec, vals=[(int(v) % 7) + 1 for v in spec['vals']], mutable=rng.random() < 0.5,
+                        meta={'k2': [5]})
+            build = [spec, sib]
+            try:
+                forms = _api_forms(classes[(cls, mutable)], small)
+            except Exception:
+                ctx.count('api:discovery-failed')
+                continue
+            must, known = [], []
+            objs = None
+            for name, form, probes in forms:
+                new_name = form == 'call' and name not in API_KNOWN
+                if new_name:
+                    ctx.count('api:name-not-known:%s' % name)
+                for probe in probes:
+                    a = {'name': name, 'form': form, 'probe': probe}
+                    if probe == 'list2':
+                        a['c'] = 1
+                    try:
+                        if objs is None:
+                            objs = [build_obj(s) for s in build]
+                            before = [snapshot(o) for o in objs]
+                        res = _api_collect(_api_call(objs[0], objs[1], dict(a)))
+                        raised = False
+                    except Exception:
+                        res, raised = [], True
+                    try:
+                        after = [snapshot(o) for o in objs]
+                        changed, sib_changed = after != before, after[1:] != before[1:]
+                    except Exception:
+                        changed, sib_changed = True, False
+                    if changed:
+                        objs = None
+                    ctx.count('api:scan:%s' % ('refused' if raised else 'collection' if res else 'other'))
+                    case = {'build': copy.deepcopy(build), 'derive': {'on': 0, 'op': 'api', 'args': a}}
+                    if changed and not mutable and not raised:
+                        # an immutable source edited by a public call: reported by the argument clause
+                        must.append(case)
+                        continue
+                    if changed and (raised or form != 'call' or name in API_KNOWN or sib_changed):
+                        must.append(dict(case, mutators=[]))       # argument hygiene clause of check_derive
+                        continue
+                    if changed:
+                        # a name the check does not know that edits a mutable source: an in-place operation (it
+                        # may answer with the object itself, like the in-place protocols of the language), with
+                        # every probe - also those that happen to leave the numbers as they are
+                        inplace.add((cls, name))
+                        continue
+                    if not res:
+                        continue
+                    shared = [x for x in (_api_shares(r, objs or []) for r in res) if x]
+                    if new_name or shared or not _api_form_known(name, form, probe):
+                        ctx.count('api:full:%s:%s' % (form, name))
+                        must.append(case)
+                    else:
+                        known.append(case)
+            must = [c for c in must if not (c['derive']['args']['form'] == 'call'
+                                            and (cls, c['derive']['args']['name']) in inplace)]
+            for case in must:
+                if small and len(must) > 12:
+                    core_m = [0, 5, 7, 10, 4]
+                    case.setdefault('mutators', sorted(core_m + rng.sample(REFUSED_IDX, 1)))
+                yield 'derive', case
+            for case in rng.sample(known, min(len(known), 3 if small else 12 if ctx.quick else 60)):
+                if ctx.quick:
+                    case['mutators'] = sorted(rng.sample(range(N_PLAIN_MUTATORS), 4) + rng.sample(REFUSED_IDX, 1))
+                ctx.count('api:sampled-known')
+                yield 'derive', case
+
+
+API_KNOWN_WEA = frozenset([
+    'ToString', '__copy__', '__eq__', '__getitem__', '__init__', '__iter__', '__len__', '__ne__', '__repr__',
+    'analysis_period', 'count_timesteps', 'datetimes', 'diffuse_horizontal_irradiance',
+    'direct_horizontal_irradiance', 'direct_normal_irradiance', 'directional_irradiance', 'duplicate',
+    'enforce_on_hour', 'estimate_illuminance_components', 'filter_by_analysis_period', 'filter_by_hoys',
+    'filter_by_moys', 'filter_by_pattern', 'filter_by_sun_up', 'from_annual_values', 'from_ashrae_clear_sky',
+    'from_ashrae_revised_clear_sky', 'from_daysim_file', 'from_dict', 'from_epw_file', 'from_file', 'from_stat_file',
+    'from_zhang_huang_solar', 'get_irradiance_value', 'get_irradiance_value_for_hoy', 'global_horizontal_irradiance',
+    'header', 'hoys', 'is_annual', 'is_continuous', 'is_leap_year', 'location', 'metadata', 'timestep',
+    'to_constant_value', 'to_dict', 'to_file_string', 'write'])
+API_KNOWN_HEADER = frozenset([
+    'ToString', '__copy__', '__eq__', '__hash__', '__init__', '__iter__', '__ne__', '__repr__', 'analysis_period',
+    'data_type', 'duplicate', 'from_csv_strings', 'from_dict', 'metadata', 'to_csv_strings', 'to_dict', 'to_tuple',
+    'unit'])
+API_KNOWN_EPW = frozenset([
+    'ToString', '__init__', '__repr__', 'aerosol_optical_depth', 'albedo', 'annual_cooling_design_day_004',
+    'annual_cooling_design_day_010', 'annual_heating_design_day_990', 'annual_heating_design_day_996',
+    'approximate_design_day', 'ashrae_climate_zone', 'atmospheric_station_pressure', 'best_available_design_days',
+    'ceiling_height', 'comments_1', 'comments_2', 'convert_to_ip', 'convert_to_si',
+    'cooling_design_condition_dictionary', 'daylight_savings_end', 'daylight_savings_start',
+    'days_since_last_snowfall', 'dew_point_temperature', 'diffuse_horizontal_illuminance',
+    'diffuse_horizontal_radiation', 'direct_normal_illuminance', 'direct_normal_radiation', 'dry_bulb_temperature',
+    'extraterrestrial_direct_normal_radiation', 'extraterrestrial_horizontal_radiation', 'extreme_cold_weeks',
+    'extreme_design_condition_dictionary', 'extreme_hot_weeks', 'file_path', 'from_dict', 'from_file_string',
+    'from_missing_values', 'global_horizontal_illuminance', 'global_horizontal_radiation', 'header',
+    'heating_design_condition_dictionary', 'horizontal_infrared_radiation_intensity', 'import_data_by_field',
+    'is_data_loaded', 'is_header_loaded', 'is_ip', 'is_leap_year', 'liquid_precipitation_depth',
+    'liquid_precipitation_quantity', 'location', 'metadata', 'monthly_cooling_design_days',
+    'monthly_ground_temperature', 'opaque_sky_cover', 'precipitable_water', 'present_weather_codes',
+    'present_weather_observation', 'relative_humidity', 'save', 'sky_temperature', 'snow_depth', 'to_ddy',
+    'to_ddy_monthly_cooling', 'to_dict', 'to_file_string', 'to_mos', 'to_wea', 'total_sky_cover', 'typical_weeks',
+    'visibility', 'wind_direction', 'wind_speed', 'write', 'years', 'zenith_luminance'])
+API_COMP_PROBES = ('none', 'zero', 'zerof', 'false', 'one', 'num', 'sib', 'self', 'list1', 'list2', 'none1', 'slice')
+
+
+def _api_comp_cases(ctx):
+    """The same discovery on the Wea class: every operator of the language with a number / another Wea on either
+    side, the unary operators, sum / math.prod / copy / deepcopy, and every public METHOD the check does not
+    know (the accessors of the members are known names; names that look like writers are not called).  What
+    hands back a Wea or a collection goes through `check_composite`."""
+    rng = ctx.rng
+    small = ctx.quick and not ctx.searching
+    for src in COMP_SOURCES + ['epw']:
+        epw = src == 'epw'
+        inp = {'src': src, 'past': [] if epw else ['meta']}
+        known = API_KNOWN_EPW if epw else API_KNOWN_WEA
+        try:
+            w = _comp_source(inp)
+            names = [n for n in _api_names(type(w)) if n not in known and n not in API_NOT_CALLED
+                     and callable(getattr(type(w), n, None))
+                     and not any(t in n for t in API_WRITER_WORDS + ('from_', 'convert_to_'))]
+        except Exception:
+            ctx.count('api:discovery-failed')
+            continue
+        forms = [(n, 'call', API_COMP_PROBES + _api_arity_probes(type(w), n, known)) for n in names]
+        for n in names:
+            ctx.count('api:%s-name-not-known:%s' % ('epw' if epw else 'wea', n))
+        if epw:
+            # (an EPW object is 35 year-long collections: fewer operands; the quick tier asks four forms only)
+            nums, others = ('zero', 'one', 'num'), ('sib', 'self', 'none1')[:1]
+        else:
+            nums, others = API_NUM_PROBES, ('sib', 'self', 'none1')
+        if epw and small:
+            forms += [('add', 'rop', ('zero',)), ('mul', 'rop', ('one',)), ('sum1', 'builtin', ('none',)),
+                      ('prod1', 'builtin', ('none',))]
+        else:
+            for b in API_BIN:
+                forms.append((b, 'op', nums + others))
+                forms.append((b, 'rop', nums + others[:1] + others[2:]))
+            forms += [(u, 'unary', ('none',)) for u in API_UNARY]
+            forms += [(b, 'builtin', ('none',)) for b in API_BUILTINS if b not in ('copy',)]
+        found = []
+        for name, form, probes in forms:
+            for probe in probes:
+                d = 'api:%s:%s:%s' % (form, name, probe)
+                try:
+                    if w is None:
+                        w = _comp_source(inp)
+                    before = _comp_snap(w, False)
+                    res = _comp_derive(w, d)
+                except Exception:
+                    res = []
+                try:
+                    changed = _comp_snap(w, False) != before
+                except Exception:
+                    changed = True
+                ctx.count('api:wea-scan:%s' % ('object' if res else 'nothing'))
+                if changed:
+                    w = None
+                    if form == 'call':
+                        continue                        # an in-place operation the check does not know
+                if res or changed:
+                    found.append(dict(inp, derive=d, views=False))
+        for case in found:
+            if small and len(found) > 6:
+                case['mutators'] = sorted(set(['meta_key', 'meta_nested'] + rng.sample(COMP_MUTATORS, 2)
+                                              + rng.sample(COLL_MUTATORS, 2)))
+            ctx.count('api:wea-full')
+            yield 'composite', case
+
+
+def _hdr_snap(h):
+    return (h.unit, type(h.data_type).__name__, tuple(_ap_tokens(h.analysis_period)),
+            json.dumps(h.metadata, sort_keys=True, default=str))
+
+
+def check_api_header(inp):
+    """One public name of Header (found on the tree under test) called with one probe on the header of a
+    collection: a Header that comes back is a new object with its own metadata dictionary and nested values;
+    edits of either leave the other (and the collection) as they were."""
+    from ladybug.header import Header
+    a = inp['call']
+    sig = {'what': 'api_header', 'api': a['name'], 'probe': a['probe']}
+
+    def fresh():
+        c = build_obj(inp['build'][0])
+        r = _api_call(c.header, build_obj(inp['build'][0]).header, dict(a))
+        out = [x for x in (r if isinstance(r, (list, tuple)) else [r]) if isinstance(x, Header)]
+        return c, out
+
+    c = build_obj(inp['build'][0])
+    before = snapshot(c)
+    try:
+        c, res = fresh()
+    except Exception:
+        return None
+    if snapshot(c) != before:
+        return {'required': 'header unchanged by %s' % a['name'], 'observed': 'changed', 'sig': dict(sig, side='args')}
+    for r in res:
+        if r is c.header:
+            return {'required': 'Header.%s(%s) returns a new header' % (a['name'], a['probe']),
+                    'observed': 'the source header', 'sig': dict(sig, side='result-is-source')}
+    edits = [lambda h, t: h.metadata.__setitem__('k1', t), lambda h, t: h.metadata.__setitem__('znew', t),
+             lambda h, t: h.metadata['k2'].append(t), lambda h, t: setattr(h, 'metadata', {'other': t}),
+             lambda h, t: h.metadata.clear(), lambda h, t: setattr(h, 'unit', 'F'),
+             lambda h, t: h.to_dict()['metadata'].update(x=t)]
+    for k, e in enumerate(edits):
+        for side in ('result', 'source'):
+            for idx in range(len(res) if side == 'result' else 1):
+                try:
+                    c, res = fresh()
+                except Exception:
+                    return {'required': 'deterministic call', 'observed': 'raises', 'sig': dict(sig, side='nondet')}
+                target = res[idx] if side == 'result' else c.header
+                others = [h for h in [c.header] + res if h is not target]
+                s0 = [_hdr_snap(h) for h in others]
+                _EDIT_COUNTER[0] += 1
+                try:
+                    e(target, 'edit#%d' % _EDIT_COUNTER[0])
+                except Exception:
+                    pass
+                if [_hdr_snap(h) for h in others] != s0:
+                    return {'required': 'the other headers unchanged after edit %d of the %s of Header.%s(%s)' % (
+                                k, side, a['name'], a['probe']), 'observed': 'changed',
+                            'sig': dict(sig, side=side, edit=k)}
+    return None
+
+
+def _api_header_cases(ctx):
+    from ladybug.header import Header
+    spec = dict(_HC24, meta={'k1': 1, 'k2': [1, 2]})
+    try:
+        names = [n for n in _api_names(Header) if n not in API_NOT_CALLED
+                 and (n in API_KNOWN_HEADER or not any(t in n for t in API_WRITER_WORDS))]
+    except Exception:
+        ctx.count('api:discovery-failed')
+        return
+    forms = [(n, 'call', ('none', 'zero', 'one', 'num', 'sib', 'self', 'none1', 'empty', 'true', 'false', 'emptydict')
+              + _api_arity_probes(Header, n, API_KNOWN_HEADER)) for n in names]
+    for n in names:
+        if n not in API_KNOWN_HEADER:
+            ctx.count('api:header-name-not-known:%s' % n)
+    forms += [(b, 'op', ('zero', 'one', 'sib', 'none1')) for b in API_BIN]
+    forms += [(b, 'rop', ('zero', 'one', 'none1')) for b in API_BIN]
+    forms += [(u, 'unary', ('none',)) for u in API_UNARY]
+    forms += [(b, 'builtin', ('none',)) for b in ('sum1', 'sum2', 'prod1', 'deepcopy', 'copy')]
+    for name, form, probes in forms:
+        for probe in probes:
+            a = {'name': name, 'form': form, 'probe': probe}
+            try:
+                c = build_obj(spec)
+                sib = build_obj(spec).header
+                r = _api_call(c.header, sib, dict(a))
+                hit = any(isinstance(x, Header) for x in (r if isinstance(r, (list, tuple)) else [r]))
+            except Exception:
+                hit = False
+            ctx.count('api:header-scan:%s' % ('header' if hit else 'nothing'))
+            if hit:
+                yield 'api_header', {'build': [copy.deepcopy(spec)], 'call': a}
+
+
 MISC = ['header_duplicate', 'wea_exports', 'wea_duplicate', 'wea_filter_pattern', 'wea_filter_ap', 'wea_filter_hoys',
         'wea_ghi', 'wea_dhi', 'wea_directional', 'wea_siblings', 'wea_directional_siblings',
         'wea_siblings_from_dict', 'wea_duplicate_location']
@@ -3764,6 +4355,12 @@ def _oracle_cases(ctx):
         yield c
 
 
+def _api_all_cases(ctx):
+    for gen in (_api_cases, _api_comp_cases, _api_header_cases):
+        for c in gen(ctx):
+            yield c
+
+
 def _oracle_cases_all(ctx):
     rng = ctx.rng
 
@@ -3789,11 +4386,13 @@ def _oracle_cases_all(ctx):
 
     blocks = [lambda: iter(FIXED_CORPUS), lambda: _sweep_cases(ctx), lambda: _r4_cases(ctx),
               lambda: _hetero_cases(ctx), lambda: _composite_cases(ctx), lambda: _misc_cases(ctx), epw_block,
-              history_block]
+              history_block, lambda: _api_all_cases(ctx)]
     if ctx.searching:
         # a tie is broken: the cheap broad blocks first (pairs, composites, single calls, histories), the large
         # sweeps after them (the stream stops once it has led to 30 failing inputs)
-        blocks = [blocks[0], blocks[3], blocks[4], blocks[5], blocks[7], blocks[1], blocks[2], blocks[6]]
+        blocks = [blocks[0], blocks[8], blocks[3], blocks[4], blocks[5], blocks[7], blocks[1], blocks[2], blocks[6]]
+    else:
+        blocks = [blocks[0], blocks[8]] + blocks[1:8]
     for b in blocks:
         for c in b():
             yield c
@@ -4026,7 +4625,14 @@ LEVEL_TEXT = ('Machine-checked Lean 4 theorems over an executable heap model (He
               'C14_source_metadata_edit_after_fresh, C14_wea_filter_metadata_separate, '
               'C14_wea_duplicate_metadata_separate); on the real objects: operand pairs that are not alike for '
               'every two-collection call, composite derive x settings-edit x side sweeps, Wea-centred histories; '
-              'the history oracle, which had skipped every step since round 2, is executed.')
+              'the history oracle, which had skipped every step since round 2, is executed. '
+              'Round 6: arithmetic with an identity operand (c + 0, 0 + c, c * 1 ...) and the built-in sum over '
+              'one or more collections, defined through the modelled addition, answer with new objects that are '
+              'separated from their operands (C14_identity_operand_new_object, C14_identity_operand_then_edit, '
+              'C14_radd_zero_new_object, C14_sum_new_object, C14_sum_single_new_object); on the real objects: the '
+              'public names, operators and built-in protocols found on the classes of the tree under test, each '
+              'with a family of probe operands, go through the derive oracle (operations the model does not '
+              'know are oracle-only).')
 LEVEL_NOTE = ('Trusted: Lean kernel; axioms propext/Classical.choice/Quot.sound only; the hand model of which cells '
               'each operation allocates/aliases (agreement on generated histories only); payload values of '
               'aggregation/validation/interpolation/Wea-derived collections; two of the 35 EPW fields modelled; '
